@@ -83,6 +83,13 @@ def d_bytes_const_and_bytes_last():
         [("key", ("bytes", 4, 4))], None
 
 
+def d_two_nibble_constants():
+    # a byte that is fully determined by two constants of four bits each: it belongs to the constant prefix
+    return B.request([B.coded_const("sid", 0x22, 0), B.coded_const("hi", 0xA, 1, 4, bit_position=4),
+                      B.coded_const("lo", 0xB, 1, 4, bit_position=0), B.value_param("v", B.dop("u8", 8), 2)]), \
+        [("v", ("uint", 8))], None
+
+
 def d_matching_request_then_const():
     return B.response([B.coded_const("sid", 0x71, 0), B.matching_request("echo_sub", 1, 1),
                        B.matching_request("echo_id", 2, 2), B.coded_const("marker", 0xAA),
@@ -391,6 +398,7 @@ DESCRIPTIONS = {
     "dynamic-length-field-of-strings-last": d_dynamic_length_field_of_strings_last,
     "linear-with-default-value": d_linear_with_default_value,
     "linear-signed-limit-zero": d_linear_signed_with_limit_zero,
+    "two-nibble-constants": d_two_nibble_constants,
 }
 
 # descriptions in which every bit of the PDU is determined by the decoded values: no reserved bits, no padding behind
@@ -488,6 +496,8 @@ def _wire(desc, values, pdu):
         return H.And(len(pdu) == 3, pdu[0] == 0x10, pdu[1] + 256 * pdu[2] == v["a"] + 4096 * v["b"])
     if desc == "reserved-bitpos-spill":
         return bytes([0x22, 0, 0, v["v"]])
+    if desc == "two-nibble-constants":
+        return bytes([0x22, 0xAB, v["v"]])
     if desc == "reserved-middle":
         return bytes([0x22, 0, v["v"]])
     if desc == "phys-const":
@@ -531,7 +541,7 @@ def _fam(tier, seed):
 
 
 @harness(props=["C01", "C02", "C03", "C04", "C05", "C08"], strength="B", family=_fam,
-         bound="47 concrete request/response descriptions built from the real parameter / DOP / diag-coded-type classes "
+         bound="48 concrete request/response descriptions built from the real parameter / DOP / diag-coded-type classes "
          "(constants, defaults, reserved bits, low-high and non-aligned values, linear compu method, request echoes, "
          "MIN-MAX-LENGTH types with the three terminations, PHYS-CONST, SYSTEM, structures with and without BYTE-SIZE, end-of-PDU, static and dynamic-length fields, LEADING-LENGTH types, DTC DOP, multiplexer, table key/struct, PARAM-LENGTH-INFO types with their length key); per description every value is "
          "symbolic",
@@ -646,7 +656,11 @@ def roundtrip_through_the_real_stack(desc):
         H.check("C03:re-encoding-the-decoded-values-reproduces-the-pdu", H.eq(bytes(pdu2), bytes(pdu)))
 
 
-PREFIX_DESCRIPTIONS = ["sid+u8", "bitpos-spill", "lowhigh-12+4", "phys-const", "matching-request+const", "multiplexer"]
+PREFIX_DESCRIPTIONS = ["sid+u8", "bitpos-spill", "lowhigh-12+4", "phys-const", "matching-request+const", "multiplexer",
+                       "two-nibble-constants"]
+# number of leading bytes that are fully determined by constants (for responses: given the whole triggering request)
+CONSTANT_BYTES = {"sid+u8": 1, "bitpos-spill": 1, "lowhigh-12+4": 1, "phys-const": 2, "matching-request+const": 5,
+                  "multiplexer": 1, "two-nibble-constants": 2}
 
 
 @harness(props=["C06", "C08"], strength="B", family=lambda t, s: [{"desc": k} for k in PREFIX_DESCRIPTIONS],
@@ -677,9 +691,15 @@ def constant_prefix_is_a_prefix_of_every_message(desc):
     for part in parts:
         H.check("C06,C08:constant-prefix-is-a-prefix-of-the-pdu",
                 H.And(len(pdu) >= len(part), H.eq(bytes(pdu)[:len(part)], bytes(part))))
+    # ... and it is not shorter than what the constants determine: services that differ in a constant byte are told
+    # apart by their prefixes
+    whole = codec.coded_const_prefix(bytes(request_bytes)) if trigger else codec.coded_const_prefix()
+    if not trigger or len(request_bytes) >= 4:
+        H.check("C06,C08:constant-prefix-covers-every-leading-byte-the-constants-determine",
+                len(whole) == CONSTANT_BYTES[desc])
 
 
-@harness(props=["C05"], strength="B", family=lambda t, s: [m for m in _fam(t, s) if m["desc"] not in DECODE_SKIP],
+@harness(props=["C05", "C03"], strength="B", family=lambda t, s: [m for m in _fam(t, s) if m["desc"] not in DECODE_SKIP],
          bound="the same concrete descriptions (but the field of terminated strings, whose symbolic item count needs a "
          "loop invariant that is not written); the message is a symbolic byte string of 0..8 bytes (0..14 for the length-key descriptions, so that keys beyond 64 bits are reachable)",
          functions=FUNCTIONS, covers=["decoded", "rejected"], assumes=["A-bitstruct", "A-lib"],
@@ -745,7 +765,7 @@ def _nrc_service():
          family=lambda t, s: [{"desc": k, "phase": ph} for k in DESCRIPTIONS for ph in ("encode", "decode")
                               if not (ph == "decode" and k in DECODE_SKIP)] +
          [{"desc": "nrc-const-service", "phase": "decode"}],
-         bound="the 47 concrete descriptions plus one service with two NRC-CONST negative responses; values and "
+         bound="the 48 concrete descriptions plus one service with two NRC-CONST negative responses; values and "
          "messages symbolic",
          functions=FUNCTIONS + [DiagService.decode_message], covers=["strict-success"],
          assumes=["A-bitstruct", "A-lib"], limits={"max_paths": 40000, "task_timeout": 1500, "sym_for_unroll": 12}, use_contracts=["bcd"],
